@@ -149,6 +149,9 @@ func isGlobalLoad(v ssa.Value, g *ssa.Global) bool {
 // firstPos returns the first valid position in a block.
 func firstPos(b *ssa.BasicBlock) token.Pos {
 	for _, in := range b.Instrs {
+		if _, isPhi := in.(*ssa.Phi); isPhi {
+			continue
+		}
 		if in.Pos().IsValid() {
 			return in.Pos()
 		}
